@@ -95,9 +95,9 @@ def c12(tier, seed):
 
 def c13(tier, seed):
     if tier == 'quick':
-        runs = [Run('e1_bfs', 'asan', ['api', '2']), Run('e2_pairs', 'plain', []), Run('e2_long', 'asan', [])]
+        runs = [Run('e1_bfs', 'asan', ['api', '2']), Run('e1_bfs', 'asan', ['tables', '2']), Run('e2_pairs', 'plain', []), Run('e2_long', 'asan', [])]
     else:
-        runs = [Run('e1_bfs', 'asan', ['api', '2']), Run('e1_bfs', 'plain', ['api', '3']), Run('e1_bfs', 'dbg', ['crypt']), Run('e1_bfs', 'dbg', ['api', '2'])]
+        runs = [Run('e1_bfs', 'asan', ['api', '2']), Run('e1_bfs', 'asan', ['tables', '2']), Run('e1_bfs', 'plain', ['api', '3']), Run('e1_bfs', 'dbg', ['crypt']), Run('e1_bfs', 'dbg', ['api', '2'])]
         runs += [Run('e1_bfs', m, ['api', '2'], label='e1_bfs[%s] api 2 (compiler matrix)' % m) for m in ('gcc-O0', 'gcc-O3', 'gcc-Os', 'clang-O0', 'clang-O2', 'clang-O3')]
         runs += [Run('e2_pairs', 'plain', []), Run('e2_pairs', 'asan', ['--tier', 'quick'], label='e2_pairs[asan] en+es'), Run('e2_long', 'asan', []), Run('e2_long', 'plain', [])]
     return check('C13', tier, seed, runs, keyfilter=pref('c13:', 'c10:', 'c12:', 'c14:', 'c18:', 'harness:'), extra_cov=e1_cov, budget_s=(4200 if tier == 'thorough' else None), assumptions=ASSUME_COMMON + [
@@ -123,7 +123,7 @@ def c15(tier, seed):
         'allocator: blocks are filled with 0xDD junk, never zero; ledger detects unknown, repeated and NULL frees'])
 
 def c18(tier, seed):
-    runs = [Run('e1_bfs', 'asan', ['inject']), Run('e2_tape', 'asan', []), Run('e1_bfs', 'asan', ['api', '2']), Run('e2_crypt', 'asan', [])]     # e2_crypt: the normaliser is the injected one for every kind of password
+    runs = [Run('e1_bfs', 'asan', ['inject']), Run('e2_tape', 'asan', []), Run('e1_bfs', 'asan', ['api', '2']), Run('e1_bfs', 'asan', ['tables', '2']), Run('e2_crypt', 'asan', [])]     # e2_crypt: the normaliser is the injected one for every kind of password
     def audit(results):
         d = build.lib_dir('plain')
         und = [l.split()[-1] for l in open(d + '/undefined.txt') if l.strip()]
@@ -277,7 +277,7 @@ ENGINES = [
   'kind_free_text': 'exhaustive enumeration of (API function, exit path) cells x compiler/optimisation builds on a dedicated painted stack, followed by a full scan of the dead stack and the library static data for secret needles; zero-at-free and memzero-before-free at every release'},
  {'name': 'E5', 'path': 'lib/checks.py:c19 + harness/e2_*.c, e1_bfs.c', 'serves_properties': ['C19'],
   'kind_free_text': 'configuration enumeration: the exhaustive E1/E2 scripts are executed against -fsigned-char and -funsigned-char builds of the library and their transcripts compared part by part'},
- {'name': 'E1', 'path': 'harness/e1_bfs.c', 'serves_properties': ['C10', 'C12', 'C13', 'C15', 'C18'],
+ {'name': 'E1', 'path': 'harness/e1_bfs.c (profiles api, feat, crypt, inject, tables)', 'serves_properties': ['C10', 'C12', 'C13', 'C15', 'C18'],
   'kind_free_text': 'explicit-state breadth-first search over API histories on the real library to fixpoint; states rebuilt by replay, de-duplicated on library sections + live seed bytes + environment; every transition compared with the reference model, observation battery in every new state; allocation faults as a state component'},
  {'name': 'E2', 'path': 'harness/e2_*.c', 'serves_properties': ['C01', 'C02', 'C03', 'C04', 'C05', 'C06', 'C07', 'C08', 'C09', 'C11', 'C12', 'C13', 'C14', 'C15', 'C17', 'C18'],
   'kind_free_text': 'bounded exhaustive enumeration of finite input factors, every case executed on the real API (ASan+UBSan build) and compared with the reference model'},
